@@ -844,9 +844,23 @@ func (x *Exec) havocTarget(s *State, env *SpecEnv, m *SpecExpr) {
 			name := "M$" + key + "$" + l.path
 			srt := arrSort(arrSort(l.sort))
 			cur := s.heapGet(name, srt)
+			if cnt, ok := isNumLit(b.Len); all && ok && cnt.IsInt64() && cnt.Int64() <= 16 {
+				// small constant length: havoc the elements one by one (quantifier-free)
+				na := mkSel(cur, b.Ref)
+				for j := int64(0); j < cnt.Int64(); j++ {
+					hv := x.eng.fresh("hv", l.sort)
+					s.assume(rangeFact(l.typ, hv))
+					na = mkSto(na, mkAdd(b.Off, numI(j)), hv)
+				}
+				if cnt.Int64() > 0 {
+					s.heapSet(name, srt, mkSto(cur, b.Ref, na), b.Ref)
+				}
+				continue
+			}
 			if all {
 				// elements within [off, off+len) change; others of the same backing store stay
 				fa := x.eng.fresh("hv", arrSort(l.sort))
+				x.eng.innerTypingAxiom(fa, l.typ)
 				k := "k!f"
 				s.assume(sf("(forall ((%s Int)) (! (=> (or (< %s %s) (>= %s %s)) (= (select %s %s) (select (select %s %s) %s))) :pattern ((select %s %s))))",
 					k, k, b.Off, k, mkAdd(b.Off, b.Len), fa, k, cur, b.Ref, k, fa, k))
@@ -854,6 +868,7 @@ func (x *Exec) havocTarget(s *State, env *SpecEnv, m *SpecExpr) {
 			} else {
 				i := e.eval(t.Index)
 				fv := x.eng.fresh("hv", l.sort)
+				s.assume(rangeFact(l.typ, fv))
 				s.heapSet(name, srt, mkSto(cur, b.Ref, mkSto(mkSel(cur, b.Ref), mkAdd(b.Off, i.S), fv)), b.Ref)
 			}
 		}
